@@ -83,7 +83,9 @@ RULE = ('primitives: grid class (odd/even, square/non-square, several samplings)
         'foreign-traffic preludes (3 kinds) on the very grid that is judged afterwards.  Hardening pass 3: keystone coincidence cases '
         '(7 exact sample pitches x 8 (thorough 12) grid sizes x rings 1..3 x radial gap 0 / 1 / 2 samples x azimuthal gap 0 / default / 1 / 2 '
         'samples x 6 rotation classes, integer radii in samples; non-trivial when a transmitting sample lies exactly on a ring radius); '
-        'OPD magnitude cases (hex / keystone x rings 1..3 x 6 factors x tiny-segment-among-O(1) x tiny pistons) and unit changes (6 factors)')
+        'OPD magnitude cases (hex / keystone x rings 1..3 x 6 factors x tiny-segment-among-O(1) x tiny pistons) and unit changes (6 factors).  '
+        'Hardening pass 5: coefficient coincidences (hex / keystone x rings 1..3 x basis x 1..6 terms x 10 array arrangements of 14 row patterns, '
+        'out=None / out=zeros, 6 containers, int64)')
 ASSUMPTIONS = ['size conventions measured on the pinned tree: circle/annulus radius, polygon circumradius, rectangle half-width / '
                'half-height, ellipse semi-axes, spider full vane width; the statement does not fix a rotation sense, either is '
                'accepted but it must not change during a run',
@@ -120,7 +122,9 @@ ASSUMPTIONS = ['size conventions measured on the pinned tree: circle/annulus rad
                '256 doubly-owned samples on a 256x256 grid with dx = 1/32, d = 1, measured)',
                'compose_opd is linear, hence homogeneous: factors 1e-12 ... 1e12 are judged at the ordinary 1e-10 relative to the scaled '
                'reference, which is composed at O(1) and multiplied afterwards; unit changes by a power of two are exact for keystones '
-               '(compared sample by sample), other factors and all hexagonal apertures are compared off the rasterised edge']
+               '(compared sample by sample), other factors and all hexagonal apertures are compared off the rasterised edge',
+               'coefficient coincidences: compose_opd is judged against the explicit sum of coefficient x opd_bases over windows / masks of the '
+               'same aperture object (rtol 1e-10 of max(|map|, 1)); a row that sums / dots to exactly 0 is an ordinary coefficient row']
 REQUIRED = ['circle.membership', 'annulus.membership', 'regular_polygon.membership', 'rectangle.membership',
             'rotated_ellipse.membership', 'spider.membership', 'offset_circle.membership',
             'primitive.monotone', 'primitive.symmetry',
@@ -135,7 +139,7 @@ REQUIRED = ['circle.membership', 'annulus.membership', 'regular_polygon.membersh
             'regime.polygon-sides>12', 'regime.aspect',
             'form.hex-exclude', 'form.hex-args', 'form.keystone-args', 'form.angle', 'form.primitive-args', 'foreign.cases',
             'special.keystone-gap0', 'special.keystone-piston-sum', 'scale.hex-opd', 'scale.keystone-opd', 'scale.hex-units',
-            'scale.keystone-units']
+            'scale.keystone-units', 'coincidence.hex-opd', 'coincidence.keystone-opd']
 
 CTX = None
 SENSE = {}
@@ -2526,6 +2530,253 @@ def _run_pass3(ctx):
     _p3_magnitudes(ctx, Hex, Key, rng)
 
 
+# ---- hardening pass 5: class H again -- exact coincidences in coefficient rows ------------------------------------------------------
+# Rows that are non-zero but whose entries sum / dot / average to exactly 0.0, rows with a single non-zero entry in a non-first mode,
+# rows of one sign, all-zero rows between non-zero ones; whole arrays whose grand total / column sums are exactly 0.  Judged by the
+# explicit sum over the prepared bases (windows, masks and opd_bases of the aperture object), by linearity (split by sign, split by
+# mode) and in the out= form, for both aperture classes (keystone: the centre coefficients too).
+ROW_PATTERNS = ['cancel-pair', 'cancel-pair-random', 'cancel-int', 'dot-zero', 'alternating', 'single-nonfirst', 'single-last',
+                'first-zero', 'one-zero-inside', 'negative-only', 'partial-cancel', 'zero', 'random', 'unit-first']
+ARRANGEMENTS = ['mixed', 'mixed-with-zero-rows', 'every-row-cancels', 'rows-alternate-sign', 'columns-cancel', 'only-last-row',
+                'only-one-inner-row', 'every-row-single-nonfirst', 'all-zero', 'integer-valued']
+
+
+def _p5_row(r, nt, pat):
+    """One coefficient row of the named pattern (float64; patterns needing >= 2 modes degrade to their one-mode reading)."""
+    c = np.zeros(nt)
+    if pat == 'zero':
+        return c
+    if pat == 'random':
+        return r.standard_normal(nt)
+    if pat == 'unit-first':
+        c[0] = 1.0
+        return c
+    if pat == 'negative-only':
+        return -np.abs(r.standard_normal(nt)) - 0.25
+    if nt == 1:
+        c[0] = [1.0, -1.0, 0.5, float(r.standard_normal())][int(r.integers(4))]
+        return c
+    i, j = [int(v) for v in r.choice(nt, 2, replace=False)]
+    if pat == 'cancel-pair':
+        a = [1.0, 0.5, 2.0, 3.0][int(r.integers(4))]
+        c[i], c[j] = a, -a
+    elif pat == 'cancel-pair-random':
+        a = float(r.standard_normal())
+        c[i], c[j] = a, -a
+    elif pat == 'cancel-int':
+        c[:] = r.integers(-3, 4, nt)
+        c[j] -= c.sum()
+        if not c.any():
+            c[i], c[j] = 1.0, -1.0
+    elif pat == 'dot-zero':                         # orthogonal to (1, 2, 3, ...) and to nothing else in particular
+        w = np.arange(1.0, nt + 1)
+        c[i], c[j] = w[j], -w[i]
+    elif pat == 'alternating':
+        c[:] = [(-1.0) ** q for q in range(nt)]
+        if nt % 2:
+            c[-1] = 0.0
+    elif pat == 'single-nonfirst':
+        c[int(r.integers(1, nt))] = [1.0, -1.0, float(r.standard_normal())][int(r.integers(3))]
+    elif pat == 'single-last':
+        c[-1] = 1.0
+    elif pat == 'first-zero':
+        c[1:] = r.standard_normal(nt - 1)
+    elif pat == 'one-zero-inside':
+        c[:] = r.standard_normal(nt)
+        c[int(r.integers(nt))] = 0.0
+    elif pat == 'partial-cancel':
+        c[i], c[j] = 1.0, -1.0
+        if nt > 2:
+            c[[q for q in range(nt) if q not in (i, j)][0]] = 0.3
+    else:
+        raise ValueError(pat)
+    return c
+
+
+def _p5_array(r, nrow, nt, arr):
+    """A (nrow, nt) coefficient array of the named arrangement and the pattern of each row."""
+    pats = [ROW_PATTERNS[int(r.integers(len(ROW_PATTERNS)))] for _ in range(nrow)]
+    if arr == 'mixed-with-zero-rows':
+        pats = [('zero' if q % 2 else p if p != 'zero' else 'cancel-pair') for q, p in enumerate(pats)]
+        pats[0] = 'zero' if r.random() < 0.5 else pats[0]
+    elif arr == 'every-row-cancels':
+        pats = [['cancel-pair', 'cancel-pair-random', 'cancel-int', 'alternating'][int(r.integers(4))] for _ in range(nrow)]
+    elif arr == 'only-last-row':
+        pats = ['zero'] * (nrow - 1) + [pats[-1] if pats[-1] != 'zero' else 'cancel-pair']
+    elif arr == 'only-one-inner-row':
+        q = int(r.integers(nrow))
+        pats = ['zero'] * nrow
+        pats[q] = ['cancel-pair', 'single-nonfirst', 'cancel-int', 'random'][int(r.integers(4))]
+    elif arr == 'every-row-single-nonfirst':
+        pats = ['single-nonfirst'] * nrow
+    elif arr == 'all-zero':
+        pats = ['zero'] * nrow
+    elif arr == 'integer-valued':
+        pats = [['cancel-int', 'cancel-pair', 'alternating', 'single-last', 'unit-first', 'zero'][int(r.integers(6))] for _ in range(nrow)]
+    co = np.array([_p5_row(r, nt, p) for p in pats]).reshape(nrow, nt)
+    if arr == 'integer-valued':
+        co = np.round(co)
+    if arr == 'rows-alternate-sign':                # the grand total and every column sum are exactly 0, no row is
+        v = r.standard_normal(nt)
+        co = np.array([v if q % 2 == 0 else -v for q in range(nrow)])
+        if nrow % 2:
+            co[-1] = 0.0
+        pats = ['+v/-v'] * nrow
+    elif arr == 'columns-cancel' and nrow >= 2:
+        co[-1] = -co[:-1].sum(axis=0)
+        co[-1] -= co.sum(axis=0)                    # second pass removes the rounding residue where it can
+        pats[-1] = 'minus-sum-of-the-others'
+    return co, pats
+
+
+def _p5_rows_case(ctx, fam, compose, blocks, shape, shapes, r, desc, kcase):
+    """`blocks`: [(argument index, row index or None, window, mask, base)] -- the prepared pieces of the aperture object;
+    `shapes`: shapes of the coefficient arguments (keystone: centre (nc,), segments (nseg, ns))."""
+    mon = f'coincidence.{fam}-opd'
+    union = np.zeros(shape, dtype=bool)
+    full = []
+    for _, _, win, mask, _ in blocks:
+        f = _full(shape, win, mask)
+        full.append(f)
+        union |= f
+
+    def explicit(cs):
+        ref = np.zeros(shape)
+        for ai, ri, win, mask, base in blocks:
+            c = cs[ai] if ri is None else cs[ai][ri]
+            tile = np.zeros(np.asarray(mask).shape)
+            for q in range(len(c)):
+                tile = tile + float(c[q]) * np.asarray(base[q], dtype=np.float64)
+            ref[win] += tile * (np.asarray(mask) != 0)
+        return ref
+
+    for na, arr in enumerate(ARRANGEMENTS):
+        cs, pats = [], []
+        for sh_ in shapes:
+            if len(sh_) == 1:
+                pat = 'zero' if arr == 'all-zero' else ROW_PATTERNS[int(r.integers(len(ROW_PATTERNS)))] if arr != 'every-row-cancels' else 'cancel-pair'
+                c = _p5_row(r, sh_[0], pat)
+                cs.append(np.round(c) if arr == 'integer-valued' else c)
+                pats.append([pat])
+            else:
+                c, p = _p5_array(r, sh_[0], sh_[1], arr)
+                cs.append(c)
+                pats.append(p)
+        form = COEF_FORMS[(kcase + na) % len(COEF_FORMS)]
+        d2 = dict(desc, arrangement=arr, coef_form=form, coefficients=[np.asarray(c).tolist() for c in cs], row_patterns=pats)
+        ref = explicit(cs)
+        scale = max(float(np.abs(ref).max()), 1.0)
+        nrows_sum0 = sum(int(np.sum((np.atleast_2d(c).sum(axis=1) == 0) & np.atleast_2d(c).any(axis=1))) for c in cs)
+        ctx.event('coincidence.rows-nonzero-with-sum-exactly-0', nrows_sum0)
+        key = f'C18/{fam}/compose_opd/rows:{arr}'
+        got = np.array(compose(*[_coef_form(c, form) for c in cs]))
+        ctx.close(mon, got, ref, key + '/explicit-sum', 'compose_opd differs from the explicit sum of coefficient x prepared basis over '
+                  'each segment (coefficient rows with exact coincidences: cancelling / single non-first mode / zero rows between others)',
+                  d2, rtol=1e-10, scale=scale)
+        ctx.require(mon, bool(np.all(got[~union] == 0)), key + '/outside-segments', 'compose_opd is non-zero outside every segment', d2)
+        for (ai, ri, _, _, _), f in zip(blocks, full):
+            row = cs[ai] if ri is None else cs[ai][ri]
+            if not np.any(row) and np.any(got[f] != 0):
+                ctx.violation(key + '/zero-row-not-zero', 'a segment whose coefficients are all zero has a non-zero OPD', d2, segment_row=ri)
+                break
+        if arr == 'integer-valued':
+            goti = np.array(compose(*[c.astype(np.int64) for c in cs]))
+            ctx.close(mon, goti, ref, key + '/int64/explicit-sum', 'compose_opd with integer coefficients differs from the explicit sum',
+                      d2, rtol=1e-10, scale=scale)
+        out = np.zeros(shape)
+        res = compose(*[c.copy() for c in cs], out=out)
+        ctx.close(mon, res, ref, key + '/out=zeros/explicit-sum', 'compose_opd(.., out=zeros) differs from the explicit sum of coefficient x '
+                  'prepared basis over each segment', d2, rtol=1e-10, scale=scale)
+        ctx.require(mon, res is out, key + '/out=zeros/not-returned', 'compose_opd(.., out=a) does not return a', d2)
+        # linearity: the positive and the negative entries composed separately (no part has a cancelling row), and mode by mode
+        # (every part is a single-mode row)
+        pos = np.array(compose(*[np.where(c > 0, c, 0.0) for c in cs]))
+        neg = np.array(compose(*[np.where(c < 0, c, 0.0) for c in cs]))
+        ctx.close(mon, got, pos + neg, key + '/nonlinear/split-by-sign', 'compose_opd(c) != compose_opd(positive part of c) + '
+                  'compose_opd(negative part of c)', d2, rtol=1e-10, scale=scale)
+        nt = max(sh_[-1] for sh_ in shapes)
+        acc = np.zeros(shape)
+        for q in range(nt):
+            part = []
+            for c in cs:
+                pq = np.zeros_like(c)
+                if q < c.shape[-1]:
+                    pq[..., q] = c[..., q]
+                part.append(pq)
+            if any(p_.any() for p_ in part):
+                acc = acc + np.array(compose(*part))
+        ctx.close(mon, got, acc, key + '/nonlinear/split-by-mode', 'compose_opd(c) != sum over modes of compose_opd(c restricted to that '
+                  'mode)', d2, rtol=1e-10, scale=scale)
+
+
+def _p5_coincidence_rows(ctx, Hex, Key, rng):
+    grids = [(64, 64), (65, 65), (96, 97), (81, 64), (128, 128)] + ([] if ctx.quick else [(129, 160), (200, 201)])
+    with driving(ctx, wl='coefficient-coincidences'):
+        for k in range(ctx.pick(24, 600)):
+            sub = ctx.subseed(rng)
+            if not ctx.mine(k // 2):
+                continue
+            r = np.random.default_rng(sub)
+            fam = ['hex', 'keystone'][k % 2]
+            n0, n1 = grids[(k // 2) % len(grids)]
+            rings = 1 + (k // 2) % 3
+            if fam == 'hex':
+                geo = _hex_geometry(r, n0, n1, rings)
+                if geo is None:
+                    ctx.skip('hex: segment smaller than 6 samples for this grid/ring count (not generated)')
+                    continue
+                dx, d, gap = geo
+                x, y = grid(n0, n1, dx)
+                angle = [90, 0][(k // 2) % 2]
+                excl = _exclusion(r, ['none', 'centre', 'random'][(k // 6) % 3], sh.hex_count(rings))
+                nterm = [2, 3, 4, 6, 2, 1, 5][(k // 2) % 7]
+                spec = _hex_spec(r, ['zernike', 'xy'][(k // 4) % 2], nterm)
+                desc = {'wl': 'coefficient-coincidences', 'family': 'hex', 'grid': (n0, n1), 'dx': dx, 'rings': rings, 'segment_diameter': d,
+                        'segment_separation': gap, 'segment_angle': angle, 'exclude': list(excl), 'basis': spec[0], 'nterms': nterm,
+                        'basis_kwargs': spec[3], 'seed': sub, 'class': f'coincidence:hex:rings={rings}:{spec[0]}:nterms={nterm}'}
+                ctx.case(desc)
+                with ctx.guard('C18/hex/coincidence', desc):
+                    ap = Hex(x, y, rings, d, gap, segment_angle=angle, exclude=excl)
+                    if any(min(np.asarray(m).shape) < 2 for m in ap.local_masks):
+                        ctx.skip('hex.opd: a segment window is empty or one sample wide (segment off the grid); OPD bases not prepared')
+                        continue
+                    ap.prepare_opd_bases(spec[1], spec[2], basis_func_kwargs=spec[3])
+                    nseg = len(ap.segment_ids)
+                    blocks = [(0, j, ap.windows[j], ap.local_masks[j], ap.opd_bases[j]) for j in range(nseg)]
+                    _p5_rows_case(ctx, 'hex', lambda c, out=None: ap.compose_opd(c) if out is None else ap.compose_opd(c, out=out),
+                                  blocks, x.shape, [(nseg, nterm)], r, desc, k // 2)
+            else:
+                geo = _keystone_geometry(r, n0, n1, rings)
+                if geo is None:
+                    ctx.skip('keystone: ring narrower than 5 samples for this grid/ring count (not generated)')
+                    continue
+                dx, kw = geo
+                x, y = grid(n0, n1, dx)
+                mode = ['zernike/zernike', 'zernike/xy', 'xy/zernike'][(k // 2) % 3]
+                nz, nx = [(2, 3), (3, 2), (4, 4), (1, 2), (2, 1), (4, 3)][(k // 2) % 6]
+                mode, zn, xn = _keystone_spec(r, mode, nz=nz, nx=nx)
+                desc = {'wl': 'coefficient-coincidences', 'family': 'keystone', 'grid': (n0, n1), 'dx': dx, 'basis': mode, 'nz': nz, 'nx': nx,
+                        'seed': sub, 'class': f'coincidence:keystone:rings={rings}:{mode}:nz={nz}:nx={nx}', **kw}
+                ctx.case(desc)
+                with ctx.guard('C18/keystone/coincidence', desc):
+                    ap = Key(x, y, **kw)
+                    if any(min(np.asarray(m).shape) < 2 for m in list(ap.segment_masks) + [ap.center_mask]):
+                        ctx.skip('keystone.opd: a segment window is empty or one sample wide (segment off the grid); OPD bases not prepared')
+                        continue
+                    nc, ns = _keystone_prepare(ap, mode, zn, xn)
+                    nseg = len(ap.segment_ids)
+                    blocks = [(0, None, ap.center_window, ap.center_mask, ap.opd_bases[0])] + \
+                             [(1, j, ap.segment_windows[j], ap.segment_masks[j], ap.opd_bases[1 + j]) for j in range(nseg)]
+                    _p5_rows_case(ctx, 'keystone',
+                                  lambda a_, b_, out=None: ap.compose_opd(a_, b_) if out is None else ap.compose_opd(a_, b_, out=out),
+                                  blocks, x.shape, [(nc,), (nseg, ns)], r, desc, k // 2)
+
+
+def _run_pass5(ctx):
+    from prysm.segmented import CompositeHexagonalAperture as Hex, CompositeKeystoneAperture as Key
+    _p5_coincidence_rows(ctx, Hex, Key, ctx.rng('c18-pass5'))
+
+
 # =========================================================================================== run
 def run(ctx):
     global CTX
@@ -2545,6 +2796,7 @@ def run(ctx):
         _run_forms(ctx)
         _run_foreign(ctx)
         _run_pass3(ctx)
+        _run_pass5(ctx)
         ctx.note('rotation_sense', {k: ('+' if v > 0 else '-') for k, v in SENSE.items()})
     finally:
         detach_all()
